@@ -10,5 +10,5 @@ Extraction "model.ml"
   Cursor.c_new Cursor.c_with_pos
   Names.check_label_bytes Names.check_name_bytes Names.name_from_str Names.name_eq Names.name_cmp
   Names.name_hash_feed Names.name_eq_str
-  Labels.read_name Labels.skip_name Labels.labels_drain Labels.nameref_eq Labels.name_fuel Script.world_init Script.run_script Script.step GenHeader.opt_dnssec_ok N.div N.modulo Iter.iter_new Iter.iter_questions Iter.iter_records RecordSet.from_msg Writer.write_name Writer.query_write Writer.prepare_message Names.append_label_bytes
+  Labels.read_name Labels.skip_name Labels.labels_drain Labels.nameref_eq Labels.name_fuel Script.world_init Script.run_script Script.step GenHeader.opt_dnssec_ok GenHeader.flag_qr GenHeader.flag_opcode GenHeader.flag_aa GenHeader.flag_tc GenHeader.flag_rd GenHeader.flag_ra GenHeader.flag_rcode N.div N.modulo Iter.iter_new Iter.iter_questions Iter.iter_records RecordSet.from_msg Writer.write_name Writer.query_write Writer.prepare_message Names.append_label_bytes
   WireName.spec_name WireName.label_ok WireName.join_labels WireName.wire_len NameText.valid_text NameText.canon_text NameText.text_labels.
